@@ -86,6 +86,13 @@ func deepScenarios(seed uint64) []Scenario {
 		// literals the script assigns: a global holds the constant object itself after a run
 		{Name: "literal-globals-after-run", IDVar: "id", AfterRun: true, Runs: 2,
 			Src: "limit := 10\nrate := 1.5\nname := \"lit\"\nch := 'c'\nacc := 0\nfor i := 0; i < limit; i++ { acc += i + id }\nout := [limit, rate, name, ch, acc]\n"},
+		// Compiled.Set over a global that holds a literal of the script after a run (round 10, seeded change C08-m13: Set
+		// wrote the new number INTO the existing object, i.e. into the constant every clone shares): the id variable
+		// itself is what the script assigned from a literal; every clone sets it, runs, and must read its own value
+		{Name: "set-over-literal-global", IDVar: "lim", AfterRun: true, Runs: 2,
+			Src: "seen := lim\nacc := 0\nfor i := 0; i < 50; i++ { acc += seen + i }\nlim = 10\nrate := 2.5\nout := [seen, acc, lim, rate]\n"},
+		{Name: "set-over-literal-global-chain", IDVar: "lim", AfterRun: true, Chain: true,
+			Src: "seen := lim\nlim = 7\nk := 7\nout := [seen, lim, k, 7]\n"},
 		// clone of a clone of a clone …
 		{Name: "chain-mutate-inputs", IDVar: "id", Chain: true, Vars: obj("arr", arr(0, arr(0, 0), obj("z", 0)), "e", errV(arr(0))),
 			Src: "arr[0] = id\narr[1][0] = id * 2\narr[2].z = id + 5\ne.value[0] = id + 6\n" + loop("arr[0] + arr[1][0] + arr[2].z + e.value[0]") + "out := [arr, e.value, acc]\n"},
